@@ -1,6 +1,7 @@
 package fakeddb
 
 import (
+	"context"
 	"fmt"
 	"strings"
 
@@ -115,6 +116,8 @@ func errV1(e *Err) error {
 		return &dynamodb.ResourceNotFoundException{Message_: aws.String(e.Msg)}
 	case Internal:
 		return &dynamodb.InternalServerError{Message_: aws.String(e.Msg)}
+	case Transport:
+		return fmt.Errorf("%s: injected transport failure: %w", Transport, context.DeadlineExceeded)
 	}
 	return fmt.Errorf("%s: %s", e.Code, e.Msg) // ValidationException has no modelled type in v1
 }
